@@ -180,6 +180,19 @@ def real_frameseq(line):
             pl = bytes.fromhex(h)
             if mode == 'N':
                 f.data = bytearray(pl)
+            elif mode in ('B', 'C'):
+                if mode == 'B':
+                    # a serialisation that fails part-way (a payload that is no byte sequence), the mistake repaired, the
+                    # same object used again
+                    f.data = [None, 'text', [1, 2, None], [1, 300], b'ab' and 3.5][len(pl) % 5]
+                    try:
+                        f.to_bytes()
+                    except Exception:
+                        pass
+                else:
+                    f.checksum.add(0x55)       # the frame's checksum member is public; somebody used it
+                    f.checksum.add(0xaa)
+                f.data = bytearray(pl)
             elif mode == 'I':
                 f.data[:] = pl
             elif mode == 'X':          # in place, one byte at a time
@@ -378,7 +391,7 @@ def gen_frame(rng, n, profile):
                 pass                                                                            # unchanged
             else:
                 pl = bytes(rng.randrange(256) for _ in range(rng.choice([0, 1, 12, 300])))
-            steps.append(rng.choice(['N', 'I', 'I', 'X']) + ':' + pl.hex())
+            steps.append(rng.choice(['N', 'I', 'I', 'X', 'N', 'I', 'I', 'X', 'B', 'C']) + ':' + pl.hex())
         yield f'frameseq|{rng.randrange(256)}|{rng.randrange(256)}|' + ';'.join(steps)
 
 
@@ -1437,6 +1450,21 @@ def start_frame(cls, init):
     return cls() if init in ('', '-') else cls.construct(bytearray(bytes.fromhex(init)))
 
 
+def leverarm_base(p):
+    """the query the model is asked: `again` is the same question, `edited:k:v` the question about the payload with X of block k changed"""
+    mode = p[4] if len(p) > 4 else ''
+    pl = bytearray(bytes.fromhex(p[3]))
+    if mode.startswith('edited:'):
+        _, k, v = mode.split(':')
+        pl[6 + 8 * int(k):8 + 8 * int(k)] = (int(v) % 65536).to_bytes(2, 'little')
+    return p[:3] + [bytes(pl).hex()]
+
+
+def model_line_helper(line):
+    p = line.split('|')
+    return '|'.join(leverarm_base(p)) if p[1] == 'leverarm' else line
+
+
 def real_helper(line):
     """helper|<name>|args…|<initial payload hex or ->: the helper applied to a fresh or a decoded frame, then pack()"""
     p = line.split('|')
@@ -1468,7 +1496,19 @@ def real_helper(line):
         elif p[1] == 'leverarm':
             from ubxlib.ubx_cfg_esfla import UbxCfgEsfla
             f = UbxCfgEsfla.construct(bytearray(bytes.fromhex(p[3])))
+            mode = p[4] if len(p) > 4 else ''
+            if mode.startswith('edited:'):                  # a field is assigned after decoding: the query is about the frame as it is now
+                _, k, v = mode.split(':')
+                setattr(f.f, f'leverArmX_{k}', int(v))
             r = f.lever_arm(int(p[2]))
+            if mode == 'again' and r is not None:
+                # what a query returns is the caller's: scribbling on it (unit conversion in place …) and asking for other
+                # types in between must not change what the next query says about the unchanged frame
+                for key in list(r):
+                    r[key] = r[key] / 100.0 + 7
+                r['note'] = 'mine'
+                f.lever_arm((int(p[2]) + 1) % 5)
+                r = f.lever_arm(int(p[2]))
             return 'none' if r is None else f"{r['x']},{r['y']},{r['z']}"
         else:
             return 'bad-line'
@@ -1514,6 +1554,7 @@ def oracles_helper(line, real_out):
         exp = (bytes([0x10, 0, 0, 0x80]) + le(y, 2) + bytes([mo, d, h, mi, s, 0]) + le(0, 4) + le(10, 2) + bytes(2) + le(0, 4)).hex()
         spec.append({'line': f'initime|{y}|{mo}|{d}|{h}|{mi}|{s}', 'expect': exp})
     elif p[1] == 'leverarm':
+        p = leverarm_base(p)
         t, pl = int(p[2]), bytes.fromhex(p[3])
         n = pl[1]
         if n <= 5 and len(pl) == 4 + 8 * n:
@@ -1563,7 +1604,11 @@ def gen_helper(rng, n, profile):
         pl = bytearray([0, cnt, 0, 0])
         for _ in range(cnt):
             pl += bytes([rng.randrange(0, 6), 0]) + bytes(rng.randrange(256) for _ in range(6))
-        yield f'helper|leverarm|{rng.randrange(0, 6)}|{bytes(pl).hex()}'
+        t = rng.randrange(0, 6) if rng.random() < .5 or not pl[1] else pl[4 + 8 * rng.randrange(min(pl[1], (len(pl) - 4) // 8) or 1)] if len(pl) >= 12 else 0
+        yield f'helper|leverarm|{t}|{bytes(pl).hex()}'
+        if 1 <= pl[1] <= 5 and len(pl) == 4 + 8 * pl[1]:
+            yield f'helper|leverarm|{t}|{bytes(pl).hex()}|again'
+            yield f'helper|leverarm|{t}|{bytes(pl).hex()}|edited:{rng.randrange(pl[1])}:{rng.choice([0, 1, -1, 250, -32768, 32767])}'
 
 
 # =====================================================================================================
@@ -1692,6 +1737,6 @@ COMPONENTS = {
     'key': {'real': real_key, 'oracles': oracles_key, 'gen': gen_key},
     'valset': {'real': real_valset, 'oracles': oracles_valset, 'gen': gen_valset, 'model_line': model_line_valset},
     'gnss': {'real': real_gnss, 'oracles': oracles_gnss, 'gen': gen_gnss},
-    'helper': {'real': real_helper, 'oracles': oracles_helper, 'gen': gen_helper},
+    'helper': {'real': real_helper, 'oracles': oracles_helper, 'gen': gen_helper, 'model_line': model_line_helper},
     'render': {'real': real_render, 'oracles': oracles_render, 'gen': gen_render},
 }
